@@ -35,3 +35,36 @@ Definition non_overlap_b (it : item) : bool :=
   | Ok tp, Ok ps => non_overlap_list tp ps
   | _, _ => false
   end.
+
+(* the first enabled default variant: (index, name of its single field if it is a named one) *)
+Fixpoint find_default (idx : nat) (vs : list variant) : option (nat * option str) :=
+  match vs with
+  | [] => None
+  | v :: r =>
+    match vprops_of v with
+    | Ok p =>
+      if negb (vp_disabled p) && vp_default p then
+        match single_field (v_fields v) with
+        | Some (SingleTuple _) => Some (idx, None)
+        | Some (SingleNamed n _) => Some (idx, Some n)
+        | None => None
+        end
+      else find_default (S idx) r
+    | _ => None
+    end
+  end.
+
+(* what an input that matches no eligible variant must produce (C01 / C11 / C18) *)
+Definition spec_fallthrough (it : item) (tp : tprops) (s : str) : fs_out :=
+  match find_default 0 (i_variants it) with
+  | Some (k, fld) => OCapture k fld s
+  | None =>
+    match tp_err_ty tp, tp_err_fn tp with
+    | Some _, Some f => OCustom f s
+    | _, _ => ONotFound
+    end
+  end.
+
+(* variant i of the item, with its properties *)
+Definition variant_at (it : item) (i : nat) (v : variant) (p : vprops) : Prop :=
+  nth_error (i_variants it) i = Some v /\ vprops_of v = Ok p.
